@@ -13,13 +13,14 @@ import (
 // time.Time would be a harness artefact).
 type Clock struct {
 	*clocks.FrozenClock
-	mu  sync.RWMutex
-	now time.Time
+	mu      sync.RWMutex
+	now     time.Time
+	tickers map[string]*clocks.Ticker
 }
 
 func NewClock() *Clock {
 	f := clocks.NewFrozenClock()
-	return &Clock{FrozenClock: f, now: f.Now()}
+	return &Clock{FrozenClock: f, now: f.Now(), tickers: map[string]*clocks.Ticker{}}
 }
 
 func (c *Clock) Now() time.Time {
@@ -32,6 +33,30 @@ func (c *Clock) Advance(d time.Duration) {
 	c.mu.Lock()
 	c.now = c.now.Add(d)
 	c.mu.Unlock()
+}
+
+// Every registers the callback like FrozenClock does and remembers its ticker.
+func (c *Clock) Every(d time.Duration, fn func(*clocks.EveryContext), label string) *clocks.Ticker {
+	t := c.FrozenClock.Every(d, fn, label)
+	c.mu.Lock()
+	c.tickers[label] = t
+	c.mu.Unlock()
+	return t
+}
+
+// TickEvery runs the callback registered under the label, as a system timer
+// would: on the caller's goroutine and without holding the clock's lock
+// (FrozenClock.TickEvery holds it for the whole callback, which makes a callback
+// that is slow block every Every call made meanwhile - an artefact of the test
+// clock, not of the engine).
+func (c *Clock) TickEvery(label string) {
+	c.mu.RLock()
+	t := c.tickers[label]
+	c.mu.RUnlock()
+	if t == nil {
+		panic("hx.Clock has no `every` func registered for label " + label)
+	}
+	t.Trigger()
 }
 
 var _ clocks.Clock = (*Clock)(nil)
